@@ -11,9 +11,9 @@ use serde_json::json;
 
 pub fn run(cfg: &RunCfg) -> Ctx {
     let mut all = Ctx::new();
-    all.merge(par_cases(cfg, "declimit", cfg.n(4000, 16 * 40_000), || (), |_, rng, ctx, _| dec_case(rng, ctx)));
-    all.merge(par_cases(cfg, "hugeprefix", cfg.n(600, 16 * 4000), || (), |_, rng, ctx, _| huge_case(rng, ctx)));
-    all.merge(par_cases(cfg, "enclimit", cfg.n(3000, 16 * 30_000), || (), |_, rng, ctx, _| enc_case(rng, ctx)));
+    all.merge(par_cases(cfg, "declimit", cfg.n(16_000, 16 * 40_000), || (), |_, rng, ctx, _| dec_case(rng, ctx)));
+    all.merge(par_cases(cfg, "hugeprefix", cfg.n(2400, 16 * 4000), || (), |_, rng, ctx, _| huge_case(rng, ctx)));
+    all.merge(par_cases(cfg, "enclimit", cfg.n(12_000, 16 * 30_000), || (), |_, rng, ctx, _| enc_case(rng, ctx)));
     if cfg.thorough && cfg.only.is_none() && std::env::var("VERIF_SKIP_4G").is_err() {
         all.merge(seq_cases(cfg, "enc4g", 1, |_, ctx, _| enc_4g(ctx)));
     }
